@@ -381,7 +381,9 @@ impl<'a> Socket<'a> {
                     requested_ip: dhcp_repr.your_ip, // use the offered ip
                 });
             }
-            (ClientState::Requesting(state), DhcpMessageType::Ack) => {
+            // An ACK can only answer a REQUEST: ignore one that arrives (with the still
+            // current transaction id of the DISCOVER) before any REQUEST has been sent.
+            (ClientState::Requesting(state), DhcpMessageType::Ack) if state.retry > 0 => {
                 if let Some((config, renew_at, rebind_at, expires_at)) =
                     Self::parse_ack(cx.now(), &dhcp_repr, self.max_lease_duration, state.server)
                 {
